@@ -568,6 +568,42 @@ def run(ctx):
     if special:
         report([t for t, _ in special], [m for _, m in special], 'BatchTrace_same_stem', known_sig=dict(kind='same-stem-outputs-collide'))
 
+    # 2b. walks that yield no file at all (an empty directory; sub-directories only, converted without recursion; a tree of empty
+    # directories): every driver returns an empty result, writes nothing and does not raise - the boundary of "any number of
+    # worker processes" / "one result per input file"
+    eroot = os.path.join(wd, 'empty_walks')
+    for layout, recurse in (('empty', False), ('empty', True), ('only-subdir', False), ('empty-tree', True)):
+        din = os.path.join(eroot, layout + str(recurse), 'in')
+        os.makedirs(din)
+        if layout == 'only-subdir':
+            os.makedirs(os.path.join(din, 'sub'))
+            with open(os.path.join(din, 'sub', 'a.dlis'), 'wb') as f_:
+                f_.write(build_valid(rng, 'RP66V1', ctx))
+        elif layout == 'empty-tree':
+            os.makedirs(os.path.join(din, 'a', 'b'))
+        for cname in ('RP66V1', 'LIS', 'BIT'):
+            for mode, jobs in (('seq', 0), ('pool', 1), ('pool', 3)):
+                dout = os.path.join(eroot, layout + str(recurse), 'out_%s_%s%d' % (cname, mode, jobs))
+                ctx.case(('empty-walk', layout, recurse, cname, mode, jobs), True)
+                try:
+                    if mode == 'seq':
+                        res = with_alarm(120, WriteLAS.convert_dir_or_file_to_las, din, dout, recurse, 'first', Slice.Slice(), set(), 16, '.3f', conv[cname])
+                    else:
+                        res = with_alarm(120, WriteLAS.convert_dir_or_file_to_las_multiprocessing, din, dout, recurse, 'first', Slice.Slice(), set(), 16, '.3f',
+                                         jobs, conv[cname])
+                    outs = digest_tree(dout) if os.path.isdir(dout) else []
+                    if len(res) or outs:
+                        ctx.fail('%s %s run (%d jobs) over a directory whose walk yields no file (%s, recurse=%s) reports %d results and writes %r' % (
+                            cname, mode, jobs, layout, recurse, len(res), outs[:3]), dict(layout=layout, converter=cname, mode=mode, jobs=jobs),
+                            sig=dict(kind='empty-walk', converter=cname, mode=mode))
+                except Exception as e:
+                    ctx.fail('%s %s run (%d jobs) over a directory whose walk yields no file (%s, recurse=%s) raised %s: %s' % (
+                        cname, mode, jobs, layout, recurse, type(e).__name__, e), dict(layout=layout, converter=cname, mode=mode, jobs=jobs),
+                        sig=dict(kind='empty-walk', converter=cname, mode=mode))
+                for ch in multiprocessing.active_children():
+                    ch.terminate()
+                    ch.join()
+    shutil.rmtree(eroot, ignore_errors=True)
     # 3. fault enumeration on one valid file per format
     frng = ctx.subrng('faults')
     nfault = 0
